@@ -216,6 +216,48 @@ def run(m):
 '''
 
 
+@structural("C21", "analysis-state-is-per-instance")
+def per_instance_state():
+    """The result for a source depends on that source and environment only: every attribute a
+    TagAnalysis method mutates through `self` is (re)bound to a fresh container by __init__, and
+    the class body holds no mutable container that instances would share."""
+    import ast as _ast
+    mod = load.get_module("liquid.analyze_tags")
+    cls = mod.classes["TagAnalysis"]
+    obs = []
+    init = load._last_def(cls.body, "__init__")
+    assigned = set()
+    for n in _ast.walk(init):
+        if isinstance(n, (_ast.Assign, _ast.AnnAssign)):
+            for t in (n.targets if isinstance(n, _ast.Assign) else [n.target]):
+                if isinstance(t, _ast.Attribute) and isinstance(t.value, _ast.Name) and t.value.id == "self":
+                    assigned.add(t.attr)
+    MUT = {"append", "extend", "add", "update", "setdefault", "pop", "clear", "insert", "remove", "discard", "__setitem__"}
+    mutated = set()
+    for fn in [x for x in cls.body if isinstance(x, _ast.FunctionDef)]:
+        for n in _ast.walk(fn):
+            tgt = None
+            if isinstance(n, _ast.Call) and isinstance(n.func, _ast.Attribute) and n.func.attr in MUT:
+                tgt = n.func.value
+            elif isinstance(n, _ast.Subscript) and isinstance(n.ctx, (_ast.Store, _ast.Del)):
+                tgt = n.value
+            while isinstance(tgt, (_ast.Subscript, _ast.Attribute)) and not (isinstance(tgt, _ast.Attribute) and isinstance(tgt.value, _ast.Name) and tgt.value.id == "self"):
+                tgt = tgt.value
+            if isinstance(tgt, _ast.Attribute) and isinstance(tgt.value, _ast.Name) and tgt.value.id == "self":
+                mutated.add(tgt.attr)
+    for a in sorted(mutated):
+        obs.append(flow.ob(f"TagAnalysis.{a}:mutated-state-is-bound-afresh-by-__init__", a in assigned, f"assigned in __init__: {sorted(assigned)}", replay_schema="code", replay_extra={"code": REPLAY}))
+    shared = []
+    for st in cls.body:
+        val = st.value if isinstance(st, (_ast.Assign, _ast.AnnAssign)) else None
+        if val is not None and isinstance(val, (_ast.Dict, _ast.List, _ast.Set, _ast.Call, _ast.ListComp, _ast.DictComp, _ast.SetComp)):
+            if not (isinstance(val, _ast.Call) and flow.dotted(val.func) in ("frozenset", "tuple", "re.compile", "property")):
+                shared.append(_ast.unparse(st)[:80])
+    obs.append(flow.ob("TagAnalysis:no-mutable-container-in-the-class-body", not shared, str(shared), replay_schema="code", replay_extra={"code": REPLAY}))
+    obs.append(flow.ob("mutated-attributes-found", len(mutated) >= 1, f"{sorted(mutated)}"))
+    return obs
+
+
 not_covered("C21", "custom inner_tags maps supplied by the caller", "the main loop of _audit_tags is not under a symbolic contract (sets/defaultdicts over token lists); its totality is carried by the pop-guard obligation and the bounded exhaustive check")
 
 bounded("C21", "bounded/C21.py")
